@@ -9315,7 +9315,10 @@ func (p *parser) mangleStmts(stmts []js_ast.Stmt, kind stmtsKind) []js_ast.Stmt 
 			// Merge adjacent local statements
 			if len(result) > 0 {
 				prevStmt := result[len(result)-1]
-				if prevS, ok := prevStmt.Data.(*js_ast.SLocal); ok && s.Kind == prevS.Kind && s.IsExport == prevS.IsExport {
+				// Note: TypeScript import-equals statements must stay separate because
+				// each one is later removed as a whole if its first binding is unused
+				if prevS, ok := prevStmt.Data.(*js_ast.SLocal); ok && s.Kind == prevS.Kind && s.IsExport == prevS.IsExport &&
+					!s.WasTSImportEquals && !prevS.WasTSImportEquals {
 					prevS.Decls = append(prevS.Decls, s.Decls...)
 					continue
 				}
